@@ -48,6 +48,18 @@ def entry_points():
     eps["get_variable_decl(name)"] = (lambda doc, n: doc.body.get_variable_decls().append(VarDecl(n, "float")), lambda doc, n: [doc.body.get_variable_decl(n)], lambda e: e.name)
     eps["get_user_field_decl(name)"] = (lambda doc, n: doc.body.get_user_field_decls().append(UserFieldDecl(n, 1)), lambda doc, n: [doc.body.get_user_field_decl(n)], lambda e: e.name)
     eps["get_note(note_id=)"] = (lambda doc, n: para(doc).insert_note(after="text", note_id=n, citation="1", body="b"), lambda doc, n: [doc.body.get_note(note_id=n)], lambda e: e.note_id)
+    from odfdo import Annotation, Link
+    from odfdo.variable import UserDefined, VarSet
+
+    eps["get_bookmark_start(name=)"] = (lambda doc, n: para(doc).set_bookmark(n, position=(2, 6)), lambda doc, n: [doc.body.get_bookmark_start(name=n)], lambda e: e.name)
+    eps["get_bookmark_end(name=)"] = (lambda doc, n: para(doc).set_bookmark(n, position=(2, 6)), lambda doc, n: [doc.body.get_bookmark_end(name=n)], lambda e: e.name)
+    eps["get_reference_mark_start(name=)"] = (lambda doc, n: para(doc).set_reference_mark(n, position=(2, 6)), lambda doc, n: [doc.body.get_reference_mark_start(name=n)], lambda e: e.name)
+    eps["get_reference_mark_end(name=)"] = (lambda doc, n: para(doc).set_reference_mark(n, position=(2, 6)), lambda doc, n: [doc.body.get_reference_mark_end(name=n)], lambda e: e.name)
+    eps["get_annotation(name=)"] = (lambda doc, n: para(doc).insert_annotation(Annotation("remark", creator="c", name=n), after="text"),
+                                    lambda doc, n: [doc.body.get_annotation(name=n)], lambda e: e.name)
+    eps["get_link(name=)"] = (lambda doc, n: para(doc).append(Link("http://example.org/", name=n, text="l")), lambda doc, n: [doc.body.get_link(name=n)], lambda e: e.name)
+    eps["get_variable_set(name)"] = (lambda doc, n: para(doc).append(VarSet(n, value=1)), lambda doc, n: [doc.body.get_variable_set(n)], lambda e: e.name)
+    eps["get_user_defined(name)"] = (lambda doc, n: para(doc).append(UserDefined(n, value=1)), lambda doc, n: [doc.body.get_user_defined(n)], lambda e: e.name)
     eps["manifest.get_media_type(path)"] = (lambda doc, n: doc.manifest.add_full_path("Pictures/" + n, "image/x-" + str(abs(hash(n)) % 999)), None, None)
     return eps
 
